@@ -98,3 +98,17 @@ func H_C15_Equal() {
 		vrt.Assert(c.GetValue() == 2, "equal-final")
 	})
 }
+
+// H_C15_EqualEmpty: "empty" is decided by the container's own equality function: with
+// equality modulo 10 the value 10 equals the zero value, so a WaitValueEmpty waiter returns
+// once the writer has stored 10 (and never stays blocked while the content is empty in that
+// sense: stuck class), while the same content does not satisfy WaitValue.
+func H_C15_EqualEmpty() {
+	c := ccontainer.NewCContainerWithEqual[int](1, func(a, b int) bool { return a%10 == b%10 })
+	vrt.Go("set-empty-equivalent", func() { c.SetValue(10) })
+	vrt.Go("empty-waiter", func() {
+		err := c.WaitValueEmpty(context.Background(), nil)
+		vrt.Assert(err == nil, "waitvalueempty-error")
+		vrt.Cover("empty-waiter-returned")
+	})
+}
